@@ -1,5 +1,5 @@
 """C07 — serialising and reloading any index preserves every search answer (Save / Reload actions of every module)."""
-import random, json
+import random, json, os
 import common as C
 import vecfam, hybfam, c16
 
@@ -36,6 +36,34 @@ def run(tier, rep, work):
                                  dict(property="C07", tier=tier, seed=C.seed(), part=drv, event_index=rj["event_index"], event=json.loads(rj["event"]),
                                       history=[json.loads(x) for x in rj["history"]][:60], what="answer after save / reload refused by the specification"))
             rep.violation(path, "%s: the specification refuses event %d: %s" % (drv, rj["event_index"], rj["event"][:400]))
+    # (3) HNSW on the lattice: the graph of the reloaded index must be the specification's graph edge for edge, and the insertions
+    #     that follow must build the same graph as on the source (HNSWT: reload as a step)
+    for mi, m in enumerate([2, 3]):
+        sub = work.sub("hlat%d" % mi)
+        C.stage_dir(d, sub)
+        trace = os.path.join(sub, "trace.ndjson")
+        p = C.run_harness(exe, ["hnsw", "-M", m, "-n", 250 if quick else 2500, "-seed", C.seed() + 50 + mi, "-out", trace])
+        if p.returncode != 0:
+            raise C.Inconclusive("hnsw driver failed: " + p.stderr[-1500:])
+        open(os.path.join(sub, "HNSWT_m.cfg"), "w").write(open(os.path.join(sub, "HNSWT.cfg")).read().replace("M = 2", "M = %d" % m))
+        v = C.validate_trace(sub, "HNSWT", "HNSWT_m.cfg", trace, max_rejects=20)
+        if "EVENTS %d" % v["events"] not in p.stdout:
+            raise C.Inconclusive("event count mismatch (hnsw lattice)")
+        rep.trace_run("hnsw lattice M=%d with reload" % m, v, histories_nontrivial=C.distinct_nontrivial(trace, {"reload"}, {"search", "add"}))
+        nrep = 0
+        for rj in v["rejected"]:
+            before = [json.loads(x)["op"] for x in rj["history"][:rj["event_index"] - rj["history_start"] + 1]]
+            if "reload" not in before:
+                rep.cov["model_drift"].append("hnsw lattice M=%d: history at %d leaves HNSW.tla before any reload (C12 judges that)" % (m, rj["history_start"]))
+                continue
+            if nrep < 3:
+                path = C.save_replay("C07", "hnsw-lattice-M%d-%s-seed%d-%d.json" % (m, tier, C.seed(), nrep),
+                                     dict(property="C07", tier=tier, seed=C.seed(), part="hnsw lattice", event_index=rj["event_index"], event=json.loads(rj["event"]),
+                                          history=[json.loads(x) for x in rj["history"]][:60], what="graph after reload (or built on the reloaded index) differs from HNSW.tla"))
+                rep.violation(path, "hnsw lattice M=%d: the specification refuses event %d after a reload: %s" % (m, rj["event_index"], rj["event"][:300]))
+                nrep += 1
+        for h in v["unvalidated"]:
+            rep.cov["model_drift"].append("hnsw lattice M=%d: history at %d was not examined" % (m, h))
     hybfam.run_trace(rep, work, exe, d, "C07", tier, "hybrid random", None, 7, 600 if quick else 6000, C.seed() + 9, 300)
     rep.cov["exhaustive"] = False
     rep.cov["rule"] = ("(1) the %d undamaged cases of the serialisation matrix (8 kinds x reachable states incl. empty, untrained, all-removed) per data seed: WriteTo, ReadFrom into a freshly constructed index with the "
